@@ -20,6 +20,7 @@ import (
 	"github.com/go-openapi/validate"
 	"github.com/go-swagger/go-swagger/codescan"
 
+	"verif/harness/internal/coqpp"
 	"verif/harness/internal/rng"
 )
 
@@ -173,12 +174,17 @@ func c16Cause(class string) string {
 		return "json-tag-dash-comma-treated-as-ignore"
 	case strings.HasPrefix(class, "embedded-") && strings.HasSuffix(class, ":renamed"):
 		return "embedded-struct-with-json-name-flattened"
+	case strings.Contains(class, "deeper-written-after-shallower") || strings.Contains(class, "same-name-at-two-depths-shallow-first") || strings.HasPrefix(class, "embedded-struct-embedding-same-name-at-two-depths"):
+		return "deeper-promoted-field-written-after-a-shallower-one-of-the-same-name"
 	}
 	return class
 }
 
 // the JSON keys encoding/json gives the field under test
 func featureKeys(f feature) []string {
+	if f.Decl != nil {
+		return f.Decl.keys()
+	}
 	name := f.Tag
 	if i := strings.Index(name, ","); i >= 0 {
 		name = name[:i]
@@ -192,6 +198,8 @@ func featureKeys(f feature) []string {
 			return []string{"p"}
 		case "lower":
 			return []string{"l"}
+		case "Both":
+			return []string{"v"}
 		default:
 			return []string{"a"}
 		}
@@ -334,7 +342,7 @@ func c16(args []string) {
 		var idx int
 		fmt.Sscanf(ln.T, "M%d", &idx)
 		f := feats[idx]
-		in := map[string]interface{}{"model": ln.T, "field": strings.TrimSpace(F{Name: "F", Type: f.Type, Tag: f.Tag, Doc: f.Doc, Embedded: f.Embed}.Go()), "class": f.Class, "value": ln.K, "encoding": ln.J}
+		in := map[string]interface{}{"model": ln.T, "field": f.fieldText(), "class": f.Class, "value": ln.K, "encoding": ln.J}
 		if ln.Err != "" {
 			cov["marshal-error"]++
 			continue
@@ -356,7 +364,13 @@ func c16(args []string) {
 			samples = append(samples, in)
 		}
 		errs0 := accepts(&def, sw, doc)
-		if gv, ok := gvalCoq(ln.G); ok {
+		if f.Decl != nil {
+			if vs, ok := f.Decl.flattenTree(ln.G); ok {
+				if dj, ok := docCoq(doc); ok {
+					encCases[idx] = append(encCases[idx], fmt.Sprintf("(%s, %s, %s)", coqpp.List(vs), dj, b2s(len(errs0) == 0)))
+				}
+			}
+		} else if gv, ok := gvalCoq(ln.G); ok {
 			if dj, ok := docCoq(doc); ok {
 				encCases[idx] = append(encCases[idx], fmt.Sprintf("(%s, %s, %s)", gv, dj, b2s(len(errs0) == 0)))
 			}
@@ -398,7 +412,17 @@ func c16(args []string) {
 				sort.Strings(missing)
 				ignoredByAnnotation := strings.Contains(f.Doc, "swagger:ignore")
 				if (len(extraKeys) > 0 && !ignoredByAnnotation) || len(missing) > 0 {
-					addV("c16/property-names-differ["+c16Cause(f.Class)+"]", "the properties of the definition are not the JSON keys of the encoding of a fully populated value", in,
+					cause := c16Cause(f.Class)
+					if f.Decl != nil && len(extraKeys) == 0 {
+						ties, all := f.Decl.tieNames(), true
+						for _, k := range missing {
+							all = all && ties[k]
+						}
+						if all {
+							cause = "name-promoted-twice-at-the-same-depth-is-hidden-by-encoding/json-but-listed"
+						}
+					}
+					addV("c16/property-names-differ["+cause+"]", "the properties of the definition are not the JSON keys of the encoding of a fully populated value", in,
 						map[string]interface{}{"keys_without_property": extraKeys, "properties_without_key": missing})
 				}
 			}
@@ -436,7 +460,7 @@ func c16(args []string) {
 				}
 				cands = append(cands, cand{tn, d})
 				candInfo = append(candInfo, map[string]interface{}{"model": tn, "idx": i, "accepted": acc, "class": f.Class, "key": key, "alternative": a.kind,
-					"field": strings.TrimSpace(F{Name: "F", Type: f.Type, Tag: f.Tag, Doc: f.Doc, Embedded: f.Embed}.Go()), "definition": def})
+					"field": f.fieldText(), "definition": def})
 			}
 		}
 	}
@@ -482,6 +506,22 @@ func c16(args []string) {
 	// model cases
 	var coq []string
 	for i, f := range feats {
+		if f.Decl != nil {
+			dc, ok := f.Decl.coq()
+			def, ok2 := sw.Definitions[fmt.Sprintf("M%d", i)]
+			if !ok || !ok2 {
+				continue
+			}
+			sc, ok := scannedCoq(&def, sw, 0)
+			if !ok {
+				cov["model:definition-outside-fragment"]++
+				sc = "KBool"
+			}
+			cov["model:declarations"]++
+			cov["model:"+f.Class]++
+			coq = append(coq, fmt.Sprintf("CS {| s_fields := %s; s_scanned := %s; s_vals := [%s]; s_docs := [%s] |}", dc, sc, strings.Join(encCases[i], "; "), strings.Join(decCases[i], "; ")))
+			continue
+		}
 		tc, ok := modelTypeCoq(f)
 		if !ok {
 			cov["model:outside-fragment"]++
@@ -514,8 +554,8 @@ func c16(args []string) {
 				part = append(part, c)
 			}
 		}
-		text := "From GS Require Import Base.Str Base.Json Scan.GoTypes Scan.GoTypesRun.\nDefinition cases : list anycase := [\n" + strings.Join(part, ";\n") +
-			"\n].\nDefinition M := Eval vm_compute in run_cases cases.\nPrint M.\n"
+		text := "From GS Require Import Base.Str Base.Json Scan.GoTypes Scan.Embed Scan.GoTypesRun.\nDefinition cases : list anycase := [\n" + strings.Join(part, ";\n") +
+			"\n].\nDefinition M := Eval vm_compute in run_cases cases.\nPrint M.\nDefinition W := Eval vm_compute in in_domain cases.\nPrint W.\n"
 		_ = os.WriteFile(filepath.Join(cd, fmt.Sprintf("cases_%02d.v", sh)), []byte(text), 0o644)
 	}
 	cov["model:cases"] = len(coq)
